@@ -223,7 +223,8 @@ class Kauri(ClusterMixin, BaseEstimator, ABC):
         n_leaves = 1
         n_clusters = 1
 
-        leaves_to_explore = [0]
+        # Like any other node, the root can only be split if it holds min_samples_split samples
+        leaves_to_explore = [0] if n >= self.min_samples_split else []
         last_gain = np.inf
 
         leaf2node = {0: 0}
